@@ -312,13 +312,16 @@ PLANNED = {}
 # round 7: what each check gained (appended to the level text)
 ROUND7 = {
     "C01": " Round 7: the event function of an impulse (ScheduledImpulse.__call__) and the query getRelevantEvents builds (its .filter comparisons read as a row predicate) are TRANSLATED from /repo on every run; RV.Bridge.Thrust proves the event value changes sign at the impulse's own time only and is zero exactly inside finfo.resolution, RV.Bridge.EventsQuery proves the query IS the model's `relevant` predicate (half-open window, named instance only).",
-    "C15": " Round 7: ScheduledFiniteThrust.__call__, getStateChangeCallback and one pass of Celestial._prepEvents' re-arm loop are TRANSLATED from /repo on every run; RV.Bridge.Thrust proves the event function has its root at the start while off and at the END while on, the callback switches on iff the end is at least 1e-9 (as binary64 reads it, within 1e-25 of the model's) away, and the re-arm fold is the model's prepSlot with flags armedAfterPrep.",
+    "C15": " Round 7: ScheduledFiniteThrust.__call__, getStateChangeCallback and one pass of Celestial._prepEvents' re-arm loop are TRANSLATED from /repo on every run; RV.Bridge.Thrust proves the event function has its root at the start while off and at the END while on, the callback switches on iff the end is at least 1e-9 (as binary64 reads it, within 1e-25 of the model's) away, and the re-arm fold is the model's prepSlot with flags armedAfterPrep. Round 8: after each case a pass that stops INSIDE a burn is followed by the whole arc in one call with the same event objects (what a pass leaves on them must not leak into the next).",
     "C17": " Round 7: the three detectors' __call__ methods and oneSidedChiSquareTest are TRANSLATED from /repo on every run (chi2.isf a function parameter, the deques lists); RV.Bridge.Detect proves them to be the model's standardStep / Sliding.step / Fading.step and the decision to be `detect` (strict <: a statistic that reaches the bound is a detection); exact histories whose statistic IS the bound (significance found by scanning doubles) exercise that equality on the real code.",
-    "C04": " Round 7: dayOfYear is TRANSLATED from /repo on every run and RV.Bridge.Conversions proves it equal to the model's for every year and month 1-12; the check runs in a daylight-saving time zone (TZ=EST5EDT,M3.2.0,M11.1.0) with probes at its switch instants, compares the absolute Earth-fixed orientation with the 1982 mean sidereal time less precession (6e-4 rad), converts a neighbouring observer 1-70 m away first in half of the razel cases and lays range/elevation/azimuth off along the observer's own horizon axes.",
+    "C04": " Round 7: dayOfYear is TRANSLATED from /repo on every run and RV.Bridge.Conversions proves it equal to the model's for every year and month 1-12; seconds2hms, utc2TerrestrialTime (Terrestrial Time affine in the UTC second, continuous through the end of the day) and the two sidereal-time polynomials (RV.Bridge.Sidereal: equal to the model's gmst/gast) are translated as well; the check runs in a daylight-saving time zone (TZ=EST5EDT,M3.2.0,M11.1.0) with probes at its switch instants, compares the absolute Earth-fixed orientation with the 1982 mean sidereal time less precession (6e-4 rad), converts a neighbouring observer 1-70 m away first in half of the razel cases and lays range/elevation/azimuth off along the observer's own horizon axes.",
     "C11": " Round 7: RV.Bridge.Conversions (dayOfYear translated from /repo) is audited with this check; sites within 60 deg of the equator are also compared with an absolute reference (right ascension = 1982 mean sidereal time + east longitude - precession, 6e-4 rad); starts in January-March of leap years.",
+    "C05": " Round 7: the step count of Scenario.propagateTo is TRANSLATED from /repo on every run (binary64 semantics; the loop read as the number of times its body runs, the refusing else-branch as a guard) and RV.Bridge.ScenarioRun proves it to be Time.propagateSteps, the function timed_run_steps is about.",
+    "C20": " Round 7: determineTransferDirection and checkSinglePass are TRANSLATED from /repo on every run; RV.Bridge.Lambert proves them to be the model's transferDirection / singlePass (inside one period: accepted, the transit time handed on unchanged; a non-positive gap raises). Round 8: 30 % of the low-orbit IOD cases replay a detection episode on ONE LambertIOD object (a refused attempt, a newer observation stored, the next attempt).",
+    "C13": " Round 7: the branch cascade of calculateSunVizFraction (which scales the radiation pressure) is TRANSLATED from /repo on every run; RV.Bridge.Geometry proves it 1 on the sunward side, 0 in full occultation, 1 without overlap, whatever sqrt/arccos are.",
     "C12": " Round 7: EquinoctialElements.fromECI/fromCOE(...).toECI() for both element sets (found defect 691b191); COE configurations that carry two spellings of an angle with the first exactly 0.0.",
-    "C14": " Round 7: satellites exactly on the Earth-Sun line behind the Earth (found defect 560e552); ConicFoV.inFieldOfView is TRANSLATED from /repo (half the cone; reflexive; monotone in the cone).",
-    "C02": " Round 7: Sensor.canSlew and ConicFoV.inFieldOfView are TRANSLATED from /repo on every run (RV.Bridge.Geometry: reachable iff slew rate x time since last tasked covers the separation; waiting longer never loses reachability).",
+    "C14": " Round 7: satellites exactly on the Earth-Sun line behind the Earth (found defect 560e552); ConicFoV.inFieldOfView and the branch cascade of calculateSunVizFraction are TRANSLATED from /repo (half the cone, reflexive, monotone in the cone; fraction 1 sunward, 0 in full occultation, 1 without overlap).",
+    "C02": " Round 7: Sensor.canSlew and ConicFoV.inFieldOfView are TRANSLATED from /repo on every run (RV.Bridge.Geometry: reachable iff slew rate x time since last tasked covers the separation; waiting longer never loses reachability). Round 8: the stated-noise oracle fails on NaN as well and a +0.9 and a -0.9 correlated stated noise are pinned. OPEN MISS recorded in DESIGN 0.9: a limb elevation frozen per space-based optical sensor (needs an eccentric host followed over hundreds of steps) is not yet reported by this check.",
     "C07": " Round 7: 30 % of the small cases are decided by a real CentralizedTaskingEngine living through several steps (generateTasking, decision matrix and task rows), half of them after a step with the same rewards and another visibility.",
     "C08": " Round 7: the engine's observation list is compared between completion orders as a SEQUENCE (it is what the filters stack and the rows are written from), not only as a multiset.",
     "C10": " Round 7: impulses inside steps, a third (one pinned) inside the very first step of the run; variant drop_maneuvering (the others fly as if the manoeuvring target had never been there).",
